@@ -7,6 +7,9 @@ Procs1 == {"p1"}
 Procs2 == {"p1", "p2"}
 PTopA(p) == IF p = "p1" THEN {"a"} ELSE {"b"}
 PTopAll(p) == Topics
+PParNone(p) == {}
+PParLdt(p) == IF p = "p2" THEN {"ldt"} ELSE {}
+PParAll(p) == IF p = "p1" THEN {"ldt"} ELSE {}
 Delay2(p) == IF p = "p1" THEN {2} ELSE {0, 3}
 Delay12(p) == IF p = "p1" THEN {1, 2} ELSE {0, 2}
 Off0(p) == IF p = "p1" THEN 0 ELSE 1
